@@ -21,7 +21,8 @@ import common as C
 import session as S
 
 REASONS = {"C08": ("panic", "getter-fails-although-every-rule-file-is-good"),
-           "C10": ("speech-from-a-table-that-is-not-the-current-one", "braille-from-a-table-that-is-not-the-current-one"),
+           "C10": ("speech-from-a-table-that-is-not-the-current-one", "braille-from-a-table-that-is-not-the-current-one",
+                   "answer-differs-for-the-same-expression-and-selection"),
            "C14": ("speech-from-a-table-that-is-not-the-current-one", "braille-from-a-table-that-is-not-the-current-one", "getter-fails-although-every-rule-file-is-good"),
            "C11": ("navigation-state-names-a-node-outside-the-expression",),
            "C20": ("a-query-changed-a-preference",)}
@@ -207,6 +208,7 @@ def project(ops, plan, results):
     st0 = json.loads(json.dumps(st))
     events = []
     n_expr = 0
+    cur_text = ""
     rules_dir = None
     for at, kind, detail in plan:
         st = json.loads(json.dumps(st))
@@ -255,7 +257,12 @@ def project(ops, plan, results):
             st["pos"] = p[-1] if p else st["root"]
             st["stack"] = p[:-1]
             st["markers"] = [m[0] for m in nav.get("markers", []) if m and m[0] and not m[0].startswith("!")]
-        events.append({"op": OPNAME[o["op"]], "res": res, "st": st, "at": at})
+        ev = {"op": OPNAME[o["op"]], "res": res, "st": st, "at": at}
+        if o["op"] == "set_mathml" and res == "ok":
+            cur_text = S.fp(o["mathml"])
+        if o["op"] in ("speech", "braille") and res == "ok" and st["expr"] != "#none":
+            ev["out"], ev["text"] = S.fp(S.norm_out(r["v"])), cur_text
+        events.append(ev)
     if events:
         events[0]["st0"] = st0
     return events
@@ -340,6 +347,21 @@ def selftest(wd):
     bad = json.loads(json.dumps(ev))
     bad[k]["st"]["highlight"] = "All" if bad[k]["st"]["highlight"] != "All" else "Off"
     rej3, _, _ = C.validate_trace("Trace_Session", "Trace_Session.cfg", strip(bad), wd, name="sw_self_pref")
+    # (4) an answer that differs from an earlier one for the same expression and selection
+    seen, pair = {}, None
+    for j4, e4 in enumerate(ev):
+        if "out" in e4:
+            k4 = (e4["op"], e4["text"], e4["st"]["lang"], e4["st"]["code"])
+            if k4 in seen:
+                pair = j4
+                break
+            seen[k4] = j4
+    if pair is not None:
+        bad = json.loads(json.dumps(ev))
+        bad[pair]["out"] = "something-else"
+        rej4, _, _ = C.validate_trace("Trace_Session", "Trace_Session.cfg", strip(bad), wd, name="sw_self_memo")
+        if not any(idx == pair + 1 and "answer-differs" in r for idx, r in rej4):
+            raise C.ToolError(f"session walk selftest: a changed answer is not rejected: {rej4[:3]}")
     ok = (any(idx == i + 1 and "outside-the-expression" in r for idx, r in rej1) and any("table-that-is-not" in r or r == "speech-from" for _, r in rej2)
           and any(idx == k + 1 and "query-changed" in r for idx, r in rej3))
     if not ok:
